@@ -6,6 +6,7 @@ mod dump;
 mod gen;
 mod ir;
 mod parse;
+mod small;
 mod toast;
 
 use std::io::Write;
@@ -147,6 +148,16 @@ fn main() {
                             }
                         }
                         writeln!(out, "D {}", watched(&prog, || dump::analyze(&prog))).unwrap();
+                    }
+                    "small" | "smallx" => {
+                        // small-scope programs over a tiny alphabet (`smallx`: with extension leaves)
+                        let p = small::gen_small(s, profile == "smallx");
+                        emit_group(&mut out, &profile, &format!("seed={s}"), &[p]);
+                    }
+                    "smallctl" => {
+                        // control skeletons of the small grammar
+                        let p = small::gen_small_ctl(s);
+                        emit_group(&mut out, "smallctl", &format!("seed={s}"), &[p]);
                     }
                     "flow" => {
                         let p = gen::gen_flow(s, i % 2 == 0);
